@@ -102,7 +102,11 @@ def gen_deck(rng, n_like=None, imp_decrease=False, allow_void_mat=False):
         return ids.pop()
 
     def imp_of(val=1):
-        return {'n': val} if imp_mode == 'card' else None
+        if imp_mode != 'card':
+            return None
+        if val and rng.random() < 0.2:
+            return {'n': val, 'p': rng.choice([0, 1, 2])}
+        return {'n': val}
 
     # filler universes
     n_univ = rng.choice([0, 1, 2, 2])
@@ -270,14 +274,14 @@ def gen_deck(rng, n_like=None, imp_decrease=False, allow_void_mat=False):
                         fill['tr'] = ('num', num)
                 but['fill'] = fill
             elif key == 'imp':
-                inherited = card_importance(by_id, base)
-                if imp_decrease and inherited:
-                    but['imp'] = {'n': rng.choice([0, 0, 1]) if inherited > 1
-                                  else 0}
+                inh = rbase.get('imp') or {}
+                parts = rng.choice([['n'], ['n'], ['n'], ['p'], ['n', 'p']])
+                if imp_decrease and inh:
+                    parts = rng.choice([list(inh), ['n'], ['n', 'p']])
+                    val = rng.choice([0, 0, 1])
                 else:
-                    low = inherited if inherited is not None else 0
-                    but['imp'] = {'n': rng.choice([v for v in (0, 1, 2, 4)
-                                                   if v >= low])}
+                    val = rng.choice([0, 1, 2, 4])
+                but['imp'] = {part: val for part in parts}
             elif key == 'u':
                 but['u'] = rng.choice([7, 8])
         if rbase.get('mat') == 0 and but.get('mat') and 'rho' not in but:
@@ -336,6 +340,12 @@ def resolve(by_id, cid, depth=0):
         raise ValueError('cyclic LIKE')
     base = dict(resolve(by_id, cell['like'], depth + 1))
     for key, val in cell.get('but', {}).items():
+        if key == 'imp' and base.get('imp'):
+            # an IMP entry of the BUT list replaces the inherited value of
+            # the same particle only
+            merged = dict(base['imp'])
+            merged.update(val)
+            val = merged
         base[key] = val
     base['id'] = cid
     base.pop('like', None)
@@ -344,49 +354,6 @@ def resolve(by_id, cid, depth=0):
     base.pop('upper', None)
     base.pop('text', None)
     return base
-
-
-def card_importance(by_id, cid):
-    '''Importance written on the cards of the chain that ends in cid (None
-    when no card of the chain carries IMP): (value, as inherited).'''
-    cell = by_id[cid]
-    if cell.get('like') is None:
-        imp = cell.get('imp')
-        return max(imp.values()) if imp else None
-    own = cell.get('but', {}).get('imp')
-    if own:
-        return max(own.values())
-    return card_importance(by_id, cell['like'])
-
-
-def chain_max_importance(by_id, cid):
-    '''What max() over every IMP written along the chain gives.'''
-    cell = by_id[cid]
-    vals = []
-    while True:
-        imp = cell.get('but', {}).get('imp') if cell.get('like') is not None \
-            else cell.get('imp')
-        if imp:
-            vals.append(max(imp.values()))
-        if cell.get('like') is None:
-            break
-        cell = by_id[cell['like']]
-    return max(vals) if vals else None
-
-
-def imp_decreasing_cells(deck):
-    '''LIKE cells whose importance, read as an override, is lower than what
-    max() over the chain gives (the like_but_imp_max shape).'''
-    by_id = {c['id']: c for c in deck['cells']}
-    out = []
-    for c in deck['cells']:
-        if c.get('like') is None:
-            continue
-        want = card_importance(by_id, c['id'])
-        got = chain_max_importance(by_id, c['id'])
-        if want is not None and got is not None and want < got:
-            out.append(c['id'])
-    return out
 
 
 def void_mat_cells(deck):
@@ -403,11 +370,8 @@ def void_mat_cells(deck):
     return out
 
 
-def expand(deck, importance='override'):
-    '''The deck with every LIKE card replaced by its explicit expansion.
-    importance='max' writes, for the imp-decreasing cells only, the maximum
-    over the chain instead of the override (used to recognise the known
-    finding, never as the expected result).'''
+def expand(deck):
+    '''The deck with every LIKE card replaced by its explicit expansion.'''
     by_id = {c['id']: c for c in deck['cells']}
     new = dict(deck)
     cells = []
@@ -418,11 +382,6 @@ def expand(deck, importance='override'):
         r = copy.deepcopy(resolve(by_id, c['id']))
         if r['mat'] == 0:
             r['rho'] = None
-        if importance == 'max':
-            want = card_importance(by_id, c['id'])
-            got = chain_max_importance(by_id, c['id'])
-            if want is not None and got is not None and want < got:
-                r['imp'] = {'n': got}
         cells.append(r)
     new['cells'] = cells
     return new
@@ -467,11 +426,17 @@ def but_options(rng, but, repeat=False):
         elif key == 'u':
             parts.append(kv(rng, case_of(rng, 'u'), val, paren_ok=True))
         elif key == 'imp':
-            for part, v in val.items():
-                name = rng.choice([f'imp:{part}', f'IMP:{part.upper()}',
-                                   f'imp:{part},p', f'imp : {part}',
-                                   f'Imp:{part}'])
-                parts.append(kv(rng, name, v))
+            items = list(val.items())
+            if len(items) == 2 and items[0][1] == items[1][1] \
+                    and rng.random() < 0.6:
+                name = ','.join(part for part, _ in items)
+                name = rng.choice([f'imp:{name}', f'IMP:{name.upper()}'])
+                parts.append(kv(rng, name, items[0][1]))
+            else:
+                for part, v in items:
+                    name = rng.choice([f'imp:{part}', f'IMP:{part.upper()}',
+                                       f'imp : {part}', f'Imp:{part}'])
+                    parts.append(kv(rng, name, v))
         elif key == 'trcl':
             if isinstance(val, tuple):
                 parts.append(kv(rng, case_of(rng, 'trcl'), val[1],
